@@ -103,7 +103,7 @@ def vk(v):
     if v is validators.uinteger_validator:
         return "uint"
     if n == "_InstanceOfValidator":
-        return v.type.__name__
+        return v.type.__name__ if isinstance(v.type, type) else [getattr(x, "__name__", repr(x)) for x in v.type]
     if n == "_InValidator":
         return ["in", list(v.options)]
     return repr(v)
